@@ -188,6 +188,9 @@ Section Laws.
     unfold madd, mvmul, vadd; cbn [combine map fst snd]. f_equal; [apply dot_vadd_l; exact Hr|exact IH].
   Qed.
 
+  Lemma vget_vzero' n i : nth i (@vzero K _ n) nzero = nzero.
+  Proof. unfold vzero. revert i; induction n as [|n IH]; intros [|i]; cbn; auto. Qed.
+
   Lemma mvmul_length (M : list (list K)) v : length (mvmul M v) = length M.
   Proof. apply map_length. Qed.
 
@@ -243,5 +246,204 @@ Section Laws.
     intros [A1 A2] [B1 B2]. revert m B A1 B1 B2. induction A2 as [|ra A Hra HA IH]; intros m [|rb B] A1 B1 B2; cbn in *; subst; try discriminate; constructor.
     - inversion B2; subst. congruence.
     - inversion B2; subst. eapply IH; eauto.
+  Qed.
+
+  (* ---- vectors that are identically zero ---- *)
+  Definition allz (v : list K) : Prop := Forall (fun k => k = nzero) v.
+
+  Lemma dot_allz_r (a v : list K) : allz v -> dot a v = nzero.
+  Proof.
+    intros Hv. revert a. induction Hv as [|k v Hk Hv IH]; intros [|x a]; rewrite ?dot_nil_l, ?dot_nil_r; try reflexivity.
+    rewrite dot_cons, IH, Hk. ring.
+  Qed.
+
+  Lemma mvmul_allz (M : list (list K)) v : allz v -> allz (mvmul M v).
+  Proof.
+    intros Hv. unfold allz, mvmul. apply Forall_forall. intros k Hk. apply in_map_iff in Hk as (r & <- & _).
+    apply dot_allz_r; exact Hv.
+  Qed.
+
+  Lemma allz_vzero n : allz (@vzero K _ n).
+  Proof. unfold allz, vzero. apply Forall_forall. intros k Hk. apply repeat_spec in Hk. exact Hk. Qed.
+
+  Lemma allz_vadd (a b : list K) : allz a -> allz b -> allz (vadd a b).
+  Proof.
+    intros Ha. revert b. induction Ha as [|x a Hx Ha IH]; intros [|y b] Hb; unfold vadd; cbn [combine map]; try constructor.
+    - inversion Hb; subst. cbn [fst snd]. ring.
+    - inversion Hb; subst. apply IH; assumption.
+  Qed.
+
+  Lemma allz_vscale c (a : list K) : allz a -> allz (vscale c a).
+  Proof.
+    intros Ha. unfold allz, vscale. apply Forall_forall. intros k Hk. apply in_map_iff in Hk as (x & <- & Hx).
+    unfold allz in Ha. rewrite Forall_forall in Ha. rewrite (Ha x Hx). ring.
+  Qed.
+
+  (* ---- sums of matrices built by a loop  M += f a ---- *)
+  Lemma fold_madd_shape {A} m n (f : A -> list (list K)) l M0 :
+    mshape m n M0 -> (forall a, In a l -> mshape m n (f a)) ->
+    mshape m n (fold_left (fun M a => madd M (f a)) l M0).
+  Proof.
+    revert M0; induction l as [|a l IH]; intros M0 H0 Hf; cbn [fold_left]; [exact H0|].
+    apply IH; [apply madd_shape; [exact H0|apply Hf; left; reflexivity] | intros; apply Hf; right; assumption].
+  Qed.
+
+  Lemma fold_madd_null {A} m n (f : A -> list (list K)) l M0 r :
+    mshape m n M0 -> (forall a, In a l -> mshape m n (f a)) ->
+    allz (mvmul M0 r) -> (forall a, In a l -> allz (mvmul (f a) r)) ->
+    allz (mvmul (fold_left (fun M a => madd M (f a)) l M0) r).
+  Proof.
+    revert M0; induction l as [|a l IH]; intros M0 H0 Hf Hz Hfz; cbn [fold_left]; [exact Hz|].
+    assert (Ha : mshape m n (f a)) by (apply Hf; left; reflexivity).
+    apply IH.
+    - apply madd_shape; assumption.
+    - intros; apply Hf; right; assumption.
+    - rewrite mvmul_madd by (eapply mshape_Forall2; eassumption). apply allz_vadd; [exact Hz|apply Hfz; left; reflexivity].
+    - intros; apply Hfz; right; assumption.
+  Qed.
+
+  Lemma bil_madd m n (A B : list (list K)) u v : mshape m n A -> mshape m n B ->
+    bil (madd A B) u v = bil A u v + bil B u v.
+  Proof.
+    intros HA HB. unfold bil. rewrite mvmul_madd by (eapply mshape_Forall2; eassumption).
+    apply dot_vadd_r. rewrite !mvmul_length. destruct HA, HB. congruence.
+  Qed.
+
+  Lemma fold_madd_bil {A} m n (f : A -> list (list K)) l M0 u v :
+    mshape m n M0 -> (forall a, In a l -> mshape m n (f a)) ->
+    bil (fold_left (fun M a => madd M (f a)) l M0) u v = bil M0 u v + nsum (map (fun a => bil (f a) u v) l).
+  Proof.
+    revert M0; induction l as [|a l IH]; intros M0 H0 Hf; cbn [fold_left map]; [cbn; ring|].
+    assert (Ha : mshape m n (f a)) by (apply Hf; left; reflexivity).
+    rewrite IH; [| apply madd_shape; assumption | intros; apply Hf; right; assumption].
+    rewrite (bil_madd m n) by assumption. rewrite nsum_cons. ring.
+  Qed.
+
+  Lemma bil_mzero m n u v : bil (@mzero K _ m n) u v = nzero.
+  Proof. unfold bil. rewrite mvmul_mzero. apply dot_vzero_r; exact Rth. Qed.
+
+  (* u^T ((c * B^T) @ D @ B) v = c * (B u)^T D (B v) *)
+  Lemma bil_BtDB nd ns c (B D : list (list K)) u v :
+    Forall (fun r => length r = nd) B -> Forall (fun r => length r = ns) D ->
+    bil (mmul nd (mmul ns (mscale c (mtrans nd B)) D) B) u v = c * bil D (mvmul B u) (mvmul B v).
+  Proof.
+    intros HB HD. unfold bil.
+    rewrite (mvmul_mmul nd) by exact HB. rewrite (mvmul_mmul ns) by exact HD.
+    rewrite mvmul_mscale, dot_vscale_r, (dot_mtrans nd) by exact HB. reflexivity.
+  Qed.
+
+  (* u^T ((c * B^T) @ B) v = c * (B u).(B v) *)
+  Lemma bil_BtB nd c (B : list (list K)) u v :
+    Forall (fun r => length r = nd) B ->
+    bil (mmul nd (mscale c (mtrans nd B)) B) u v = c * dot (mvmul B u) (mvmul B v).
+  Proof.
+    intros HB. unfold bil.
+    rewrite (mvmul_mmul nd) by exact HB.
+    rewrite mvmul_mscale, dot_vscale_r, (dot_mtrans nd) by exact HB. reflexivity.
+  Qed.
+
+  (* ---- entries ---- *)
+  Definition ment (M : list (list K)) (i j : nat) : K := nth j (nth i M []) nzero.
+
+  Lemma msym_ment (M : list (list K)) : msym M <-> forall i j, ment M i j = ment M j i.
+  Proof. reflexivity. Qed.
+
+  Lemma nth_madd (A B : list (list K)) i : length A = length B ->
+    nth i (madd A B) [] = vadd (nth i A []) (nth i B []).
+  Proof.
+    revert B i; induction A as [|ra A IH]; intros [|rb B] i Hl; cbn in Hl; try discriminate.
+    - destruct i; reflexivity.
+    - destruct i as [|i]; [reflexivity|]. unfold madd in *. cbn [combine map nth]. apply IH. lia.
+  Qed.
+
+  Lemma ment_madd m n (A B : list (list K)) i j : mshape m n A -> mshape m n B ->
+    ment (madd A B) i j = ment A i j + ment B i j.
+  Proof.
+    intros [A1 A2] [B1 B2]. unfold ment. rewrite nth_madd by congruence.
+    assert (Hl : length (nth i A []) = length (nth i B [])).
+    { destruct (Nat.lt_ge_cases i m) as [Hi|Hi].
+      - rewrite Forall_forall in A2, B2. rewrite A2, B2; [reflexivity | apply nth_In; lia | apply nth_In; lia].
+      - rewrite !nth_overflow by lia. reflexivity. }
+    apply (vget_vadd Rth _ _ j Hl).
+  Qed.
+
+  Lemma ment_mzero m n i j : ment (@mzero K _ m n) i j = nzero.
+  Proof.
+    unfold ment, mzero. destruct (Nat.lt_ge_cases i m) as [Hi|Hi].
+    - rewrite (nth_indep _ [] (vzero n)) by (rewrite repeat_length; exact Hi). rewrite nth_repeat.
+      apply (vget_vzero' n j).
+    - rewrite (nth_overflow (repeat (vzero n) m)) by (rewrite repeat_length; exact Hi). destruct j; reflexivity.
+  Qed.
+
+  Lemma fold_madd_sym {A} n (f : A -> list (list K)) l M0 :
+    mshape n n M0 -> (forall a, In a l -> mshape n n (f a)) ->
+    msym M0 -> (forall a, In a l -> msym (f a)) ->
+    msym (fold_left (fun M a => madd M (f a)) l M0).
+  Proof.
+    revert M0; induction l as [|a l IH]; intros M0 H0 Hf S0 Sf; cbn [fold_left]; [exact S0|].
+    assert (Ha : mshape n n (f a)) by (apply Hf; left; reflexivity).
+    apply IH.
+    - apply madd_shape; assumption.
+    - intros; apply Hf; right; assumption.
+    - intros i j. change (ment (madd M0 (f a)) i j = ment (madd M0 (f a)) j i).
+      rewrite !(ment_madd n n) by assumption.
+      rewrite (S0 i j : ment M0 i j = ment M0 j i). rewrite ((Sf a (or_introl eq_refl)) i j : ment (f a) i j = ment (f a) j i).
+      reflexivity.
+    - intros; apply Sf; right; assumption.
+  Qed.
+
+  (* entry of a product *)
+  Lemma ment_mmul n (A B : list (list K)) i j : (j < n)%nat ->
+    ment (mmul n A B) i j = dot (nth i A []) (mcol B j).
+  Proof.
+    intros Hj. unfold ment, mmul. destruct (Nat.lt_ge_cases i (length A)) as [Hi|Hi].
+    - rewrite (nth_indep _ [] ((fun ra => map (fun j => dot ra (mcol B j)) (seq 0 n)) [])) by (rewrite map_length; exact Hi).
+      rewrite map_nth. rewrite (nth_indep _ nzero ((fun j => dot (nth i A []) (mcol B j)) 0%nat)) by (rewrite map_length, seq_length; exact Hj).
+      rewrite map_nth, seq_nth by exact Hj. reflexivity.
+    - rewrite (nth_overflow (map _ A)) by (rewrite map_length; exact Hi). rewrite (nth_overflow A) by exact Hi.
+      rewrite dot_nil_l. destruct j; reflexivity.
+  Qed.
+
+  Lemma ment_overflow_col n (M : list (list K)) i j : Forall (fun r => length r = n) M -> (n <= j)%nat ->
+    ment M i j = nzero.
+  Proof.
+    intros HM Hj. unfold ment. destruct (Nat.lt_ge_cases i (length M)) as [Hi|Hi].
+    - apply nth_overflow. rewrite Forall_forall in HM. rewrite HM by (apply nth_In; exact Hi). exact Hj.
+    - rewrite (nth_overflow M) by exact Hi. destruct j; reflexivity.
+  Qed.
+
+  Lemma ment_overflow_row (M : list (list K)) i j : (length M <= i)%nat -> ment M i j = nzero.
+  Proof. intros Hi. unfold ment. rewrite (nth_overflow M) by exact Hi. destruct j; reflexivity. Qed.
+
+  Lemma nth_mtrans n (M : list (list K)) i : (i < n)%nat -> nth i (mtrans n M) [] = mcol M i.
+  Proof.
+    intros Hi. unfold mtrans. rewrite (nth_indep _ [] (mcol M 0)) by (rewrite map_length, seq_length; exact Hi).
+    rewrite map_nth, seq_nth by exact Hi. reflexivity.
+  Qed.
+
+  Lemma nth_mscale c (M : list (list K)) i : nth i (mscale c M) [] = vscale c (nth i M []).
+  Proof.
+    unfold mscale. destruct (Nat.lt_ge_cases i (length M)) as [Hi|Hi].
+    - rewrite (nth_indep _ [] (vscale c [])) by (rewrite map_length; exact Hi). apply map_nth.
+    - rewrite !nth_overflow by (rewrite ?map_length; exact Hi). reflexivity.
+  Qed.
+
+  (* entry (i, j) of (c * B^T) @ D @ B  =  c * col_i(B)^T D col_j(B) *)
+  Lemma ment_BtDB nd ns c (B D : list (list K)) i j :
+    Forall (fun r => length r = ns) D -> (i < nd)%nat -> (j < nd)%nat ->
+    ment (mmul nd (mmul ns (mscale c (mtrans nd B)) D) B) i j = c * bil D (mcol B i) (mcol B j).
+  Proof.
+    intros HD Hi Hj. rewrite ment_mmul by exact Hj.
+    unfold mmul at 1.
+    rewrite (nth_indep _ [] ((fun ra => map (fun j => dot ra (mcol D j)) (seq 0 ns)) []))
+      by (rewrite map_length; unfold mscale, mtrans; rewrite !map_length, seq_length; exact Hi).
+    rewrite map_nth. rewrite nth_mscale, nth_mtrans by exact Hi.
+    rewrite (dot_mmul_row ns) by exact HD. unfold bil. apply dot_vscale_l.
+  Qed.
+
+  Lemma ment_BtB nd c (B : list (list K)) i j : (i < nd)%nat -> (j < nd)%nat ->
+    ment (mmul nd (mscale c (mtrans nd B)) B) i j = c * dot (mcol B i) (mcol B j).
+  Proof.
+    intros Hi Hj. rewrite ment_mmul by exact Hj. rewrite nth_mscale, nth_mtrans by exact Hi. apply dot_vscale_l.
   Qed.
 End Laws.
